@@ -419,6 +419,66 @@ func (ex *Exec) readFullBlob(chunks []*vchunk, pos *int, buf *Blob) Value {
 	return &Agg{E: []Value{n, nilErr()}}
 }
 
+// readOnceBlob models one (*os.File).Read(buf) on a regular file where buf has symbolic length n: the call
+// returns min(n, bytes left) bytes and a nil error (io.EOF only when nothing is left). Unlike io.ReadFull a
+// short read is not an error: the rest of buf keeps its zero bytes, so what the caller holds is a record
+// prefix followed by padding - bytes that are not one complete codec output ("garbage").
+func (ex *Exec) readOnceBlob(chunks []*vchunk, pos *int, buf *Blob, n *Term, eofFirst bool) Value {
+	// zero-length records leave nothing to read
+	for *pos < len(chunks) && chunks[*pos].kind == 1 && chunks[*pos].avail.IsConst() && chunks[*pos].avail.C == 0 {
+		*pos++
+	}
+	// (*bytes.Reader).Read reports io.EOF at the end of its input even for an empty buffer; (*os.File).Read
+	// returns (0, nil) for an empty buffer wherever the position is
+	if eofFirst && *pos >= len(chunks) {
+		return &Agg{E: []Value{mkConst(64, 0), ex.ioSentinel("io", "EOF")}}
+	}
+	if ex.branch(mkCmp("=", n, mkConst(64, 0))) {
+		return &Agg{E: []Value{mkConst(64, 0), nilErr()}}
+	}
+	if *pos >= len(chunks) {
+		return &Agg{E: []Value{mkConst(64, 0), ex.ioSentinel("io", "EOF")}}
+	}
+	if buf == nil {
+		ex.fatal("vfs: single Read into a concrete non-empty buffer from a record stream")
+	}
+	c := chunks[*pos]
+	last := *pos == len(chunks)-1
+	if c.kind == 1 {
+		if ex.branch(mkCmp("=", n, c.avail)) {
+			*pos++
+			if c.full {
+				buf.Kind, buf.Msg = c.blob.Kind, c.blob.Msg
+			} else {
+				buf.Kind = "partial"
+			}
+			return &Agg{E: []Value{n, nilErr()}}
+		}
+		if last && ex.branch(mkCmp("bvult", c.avail, n)) {
+			*pos++
+			if ex.branch(mkCmp("=", c.avail, mkConst(64, 0))) {
+				return &Agg{E: []Value{mkConst(64, 0), ex.ioSentinel("io", "EOF")}}
+			}
+			buf.Kind = "garbage"
+			ex.tags["short-read"] = "record-prefix-zero-padded"
+			return &Agg{E: []Value{c.avail, nilErr()}}
+		}
+	}
+	ex.vfs.misparsed = true
+	ex.tags["misparse"] = "payload-read-across-records"
+	*pos = len(chunks)
+	buf.Kind = "garbage"
+	return &Agg{E: []Value{n, nilErr()}}
+}
+
+// readOnce dispatches a single Read(buf) on a vfs-backed reader.
+func (ex *Exec) readOnce(chunks []*vchunk, pos *int, p *SliceVal, eofFirst bool) Value {
+	if p.Blob != nil {
+		return ex.readOnceBlob(chunks, pos, p.Blob, p.Blob.Len, eofFirst)
+	}
+	return ex.readOnceBlob(chunks, pos, nil, mkConst(64, uint64(p.Len)), eofFirst)
+}
+
 func (ex *Exec) vfsReadFull(a []Value) (Value, bool) {
 	chunks, pos, ok := ex.sourceOf(a[0])
 	if !ok {
@@ -634,6 +694,9 @@ func registerIOIntercepts() {
 			p := a[1].(*SliceVal)
 			if h.closed {
 				return &Agg{E: []Value{mkConst(64, 0), ex.pathErr("closed")}}
+			}
+			if p.Blob != nil {
+				return ex.readOnce(h.f.chunks, &h.pos, p, false)
 			}
 			if h.pos >= len(h.f.chunks) {
 				return &Agg{E: []Value{mkConst(64, 0), ex.ioSentinel("io", "EOF")}}
@@ -890,7 +953,8 @@ func registerIOIntercepts() {
 			msg := a[0].(*IfaceVal)
 			var ln *Term
 			snap := ex.load(msg.Val.(*Ptr).C)
-			if allZero(snap) {
+			zc, zok := ex.zeroCond(snap)
+			if allZero(snap) || (zok && ex.branch(zc)) {
 				ln = mkConst(64, 0) // proto3: a message with only default values encodes to zero bytes
 			} else {
 				ln = ex.newVar("marshal.len", 64)
@@ -1077,6 +1141,37 @@ func registerIOIntercepts() {
 		intercepts[k] = v
 	}
 	registerIOModels()
+}
+
+// zeroCond returns the condition under which a (partly symbolic) value has only default values; ok is false
+// when that is impossible or not expressible (a non-zero constant, a non-empty container).
+func (ex *Exec) zeroCond(v Value) (*Term, bool) {
+	switch x := v.(type) {
+	case *Term:
+		if x.IsConst() {
+			return tTrue, x.C == 0
+		}
+		if x.W == 0 {
+			return mkNot(x), true
+		}
+		return mkCmp("=", x, mkConst(x.W, 0)), true
+	case *StrVal:
+		if x.Sym == nil {
+			return tTrue, x.S == ""
+		}
+		return ex.strEq(x, &StrVal{S: ""}), true
+	case *Agg:
+		c := tTrue
+		for _, e := range x.E {
+			ec, ok := ex.zeroCond(e)
+			if !ok {
+				return nil, false
+			}
+			c = mkAnd(c, ec)
+		}
+		return c, true
+	}
+	return tTrue, allZero(v)
 }
 
 func allZero(v Value) bool {
